@@ -22,7 +22,8 @@ RULE = ("case = 1..4 PDO maps (layouts as in C05: any integer type / REAL / BOOL
         "offset), COB-IDs distinct or colliding, per map enabled / rtr_allowed flags, and a history of ops: "
         "write a typed value on the producer (by position, index, name, through the node-level lookup), "
         "transmit, deliver a raw frame with a generated id, reconfigure a consumer map to another COB-ID "
-        "and re-subscribe, add a callback, remote_request, wait_for_reception with a second thread "
+        "and re-subscribe, add a callback, remote_request (from the consumer or from a third node that took "
+        "the configuration from the device after the consumer's save()), wait_for_reception with a second thread "
         "delivering (or nothing delivered). Oracle: per-map reception model (data, timestamp, callback "
         "counts) + the C05 bit-field model for values; transmit = exactly (COB-ID, current data); RTR frame "
         "iff enabled and RTR allowed. Non-trivial = >= 2 maps and a reception with a non-byte-aligned layout "
